@@ -1793,3 +1793,12 @@ package raft
 //@   requires nonnil: r != nil
 //@   ensures  picks_another_voter: result != nil ==> result.Suffrage == Voter && result.ID != r.localID
 //@   loop 1 invariant candidate_is_another_voter: pick != nil ==> pick.Suffrage == Voter && pick.ID != r.localID
+
+// ---------------------------------------------------------------------------
+// C10/C07: live bootstrap - only a server that is a voter of the given configuration bootstraps; on success the
+// in-memory term and log tail are those of the entry that was just made durable
+//@ func (r *Raft) liveBootstrap
+//@   requires nonnil: r != nil && r.logs != nil && r.stable != nil && r.snapshots != nil && r.logger != nil && r.trans != nil && typeis(r.conf.v, Config)
+//@   localonly
+//@   ensures  memory_follows_the_durable_bootstrap: result == nil ==> r.currentTerm == 1 && r.lastLogIndex == 1 && r.lastLogTerm == 1 && r.logs.has[1]
+//@   at call BootstrapCluster#1 assert only_a_voter_bootstraps: exists k int :: 0 <= k && k < len(configuration.Servers) && configuration.Servers[k].ID == r.localID && configuration.Servers[k].Suffrage == Voter
